@@ -141,7 +141,8 @@ def run_case(case) -> Result:
             step = abs(v - out[i - 1]) if i > 0 and out[i - 1] is not None else 0
             # a lot size finer than round_value: the stored total moves by the volume up to one rounding
             fine = round(c.volume, r) != c.volume and abs(step - c.volume) <= 0.5 * 10.0**-r * 1.001 + 1e-9 * abs(v)
-            if step not in (0, c.volume) and not fine:
+            near = min(abs(step), abs(step - c.volume)) <= 1e-9 * max(1.0, abs(v))  # 9.8 - 6.8 is not 3.0 in binary
+            if step not in (0, c.volume) and not fine and not near:
                 bad("relation-broken", "|dOBV| in {0,volume}", i, f"{out[i - 1]} -> {v}, volume {c.volume}")
         elif cls == "Counter":
             if isinstance(v, bool) or not isinstance(v, int) or v < 0:
